@@ -7,11 +7,13 @@ from . import spec
 from .gen_req import fsa_for
 
 
-def build_response(h, kind, var):
+def build_response(h, kind, var, wrap=False):
     """emit construction of the response value; returns (ctx, model, schema, value var, body bytes)"""
     schema = spec.RESPONSES[kind]
     var.symbool = True
     ctx = Ctx(h, var)
+    if wrap:
+        ctx.wrap_schema, ctx.wrap_variant = schema, kind
     m = schema.make(ctx, schema.name)
     v = schema.build(ctx, m)
     node = schema.cbor_ser(m)
@@ -31,7 +33,7 @@ def encode_harness(name, prop, kind, var, desc, N=None, prefill=0, mode="equiv",
        via:  "response" through ctap2::Response::serialize::<N>; "direct" cbor_serialize(&value, &mut [u8; K])"""
     h = Harness(name, prop, desc, tiers=tiers, timeout=timeout, stub_utf8="assume")
     h.encode_side = True
-    ctx, m, schema, v, body, node = build_response(h, kind, var)
+    ctx, m, schema, v, body, node = build_response(h, kind, var, wrap=(via == "response"))
     empty = body == [0xA0]
     exp = [0x00] + ([] if empty else body)
     E = len(exp)
@@ -39,7 +41,6 @@ def encode_harness(name, prop, kind, var, desc, N=None, prefill=0, mode="equiv",
     if via == "response":
         if N is None:
             N = max(16, ((E + prefill + 8) // 8) * 8)
-        h.add("let resp = Response::%s(%s);" % (kind, v))
         h.add("let mut buf: ctap_types::Vec<u8, %d> = ctap_types::Vec::new();" % N)
         if prefill:
             pv, pex = h.sym_bytes(prefill, "pre")
@@ -72,6 +73,8 @@ def encode_harness(name, prop, kind, var, desc, N=None, prefill=0, mode="equiv",
         h.unwind = max(h.maxlen + 4, E + 4, 36)
         h.bounds = {"expected_bytes": E - 1, "unwind": h.unwind, "mode": mode, "entry": "cbor_serialize"}
     h.add('kani::cover!(true, "response encoded and compared");')
+    if via == "response" and kind in ("GetAssertion", "GetNextAssertion"):
+        h.timeout = max(h.timeout, 3000)
     if via == "response" and kind != "LargeBlobs":
         # with `large-blobs` every ctap2::Response value carries a 3008-byte buffer and each move of
         # it costs minutes of symbolic execution: the Response::serialize path of the other kinds is
